@@ -873,10 +873,10 @@ fn raw_op(r: &mut Rng, vg: &mut ValGen) -> Value {
     json!(["raw", patches.iter().map(|(p, v)| json!([p, v])).collect::<Vec<_>>(), u])
 }
 
-fn gen_schedule(r: &mut Rng, vg: &mut ValGen, f: &Features, safe_splice: bool, prop: Prop) -> Vec<Value> {
+fn gen_schedule(r: &mut Rng, vg: &mut ValGen, f: &Features, safe_splice: bool, prop: Prop, deep: bool) -> Vec<Value> {
     let mut ops = vec![];
     let style = r.below(10);
-    let nops = r.range(1, 12);
+    let nops = if deep { r.range(12, 36) } else { r.range(1, 12) };
     // per-run flush policy
     let flush_p = match (prop, style) {
         (Prop::C07, _) => 0.95,
@@ -930,6 +930,11 @@ const WXS_EXT: &str = "exports.j = function(a){ return JSON.stringify(a) }; expo
 // ---------------------------------------------------------------------------------------------
 
 pub fn generate(seed: u64, prop: Prop) -> World {
+    generate_with(seed, prop, false)
+}
+
+/// `deep`: larger templates and longer histories (a share of the thorough tier's runs)
+pub fn generate_with(seed: u64, prop: Prop, deep: bool) -> World {
     let mut rc = Rng::fork(seed, "rt.config");
     let mut rt = Rng::fork(seed, "rt.template");
     let mut rd = Rng::fork(seed, "rt.data");
@@ -964,7 +969,7 @@ pub fn generate(seed: u64, prop: Prop) -> World {
     // arrays, and its documentation says in-place changes then go unnoticed by the child
     config.prop_deep_copy = (*rc.pick(&["", "", "simple-recursion"])).to_string();
     let safe_splice_pref = rc.chance(0.7);
-    let size = rc.range(3, if prop == Prop::C07 { 14 } else { 22 }) as i32;
+    let size = if deep { rc.range(18, 45) as i32 } else { rc.range(3, if prop == Prop::C07 { 14 } else { 22 }) as i32 };
 
     let with_inline = f.calls || f.events;
     let with_ext = (f.calls || f.events) && rc.chance(0.5);
@@ -1052,7 +1057,7 @@ pub fn generate(seed: u64, prop: Prop) -> World {
     let mut vg = ValGen { u: 100 };
     let data = gen_data(&mut rd, &mut vg);
     let safe = used_index_reads && safe_splice_pref;
-    let schedule = gen_schedule(&mut ro, &mut vg, &f, safe, prop);
+    let schedule = gen_schedule(&mut ro, &mut vg, &f, safe, prop, deep);
     let indexed_lists: Vec<Vec<String>> = if used_index_reads {
         vec![vec!["list".into()], vec!["l2".into()], vec!["list".into(), "*".into(), "sub".into()]]
     } else {
